@@ -20,6 +20,9 @@ VH_MAIN_BEGIN
     for (unsigned i = 0; i < DOBJ; i++) dest[i] = in.pre[i];
 #endif
     const size_t dmax = DOBJ;
+#ifdef BOSK /* slice: whether the library knows the object size (a symbolic destbos makes every clearing length symbolic) */
+    in.bos_known = BOSK;
+#endif
     size_t destbos = (in.bos_known & 1) ? DOBJ * sizeof(wchar_t) : BOS_UNKNOWN;
     set_str_constraint_handler_s(vh_handler);
     rsize_t len = 0x7777;
